@@ -216,7 +216,7 @@ def add_node_handle_count():
         sym.check("no_count_nonneg_index_ok", n[5].offset == 5)
 
 
-@lemma("C16", bounds="builder entry points add_op/add/extend/call/load/load via const node/add_nested/add_cfg/add_conditional/add_if/add_tail_loop and the "
+@lemma("C16", bounds="builder entry points add_op/add/extend/call (monomorphic and row-polymorphic at rows of 0..3 types)/load/load via const node/add_nested/add_cfg/add_conditional/add_if/add_tail_loop and the "
                      "four insert_*; operation / container output counts 0..2 (incl. zero outputs)",
        outside="wider operations", opts={"max_paths": 100000, "timeout_s": 1500})
 def builder_handles_know_their_outputs():
@@ -227,7 +227,7 @@ def builder_handles_know_their_outputs():
     from hugr.build.function import Module
     Bo = tys.Bool
     k = sym.concretize(sym.int("n_out", 0, 2))
-    how = sym.concretize(sym.int("entry_point", 0, 13))
+    how = sym.concretize(sym.int("entry_point", 0, 14))
     d = Dfg(Bo, Bo)
     a, b = d.inputs()
     cu = ops.Custom("op", tys.FunctionType([Bo], [Bo] * k), extension="e")
@@ -289,12 +289,21 @@ def builder_handles_know_their_outputs():
             e.set_single_succ_outputs(*e.inputs()[:k])
         inner.branch_exit(e[0])
         n = d.insert_cfg(inner, a, b)
-    else:
+    elif how == 13:
         inner = Conditional(tys.Bool, [Bo, Bo])
         for j in range(2):
             with inner.add_case(j) as cs:
                 cs.set_outputs(*cs.inputs()[:k])
         n = d.insert_conditional(inner, a, b, b)
+    else:
+        # call of a row-polymorphic function (forall r. r -> Bool, r) at a row of k-1 types: the instantiated arity is not the body's
+        m = Module()
+        rv = tys.RowVariable(0, tys.TypeBound.Any)
+        decl = m.declare_function("rowpoly", tys.PolyFuncType([tys.ListParam(tys.TypeTypeParam(tys.TypeBound.Any))], tys.FunctionType([rv], [Bo, rv])))
+        k = sym.concretize(sym.int("row_len", 0, 3)) + 1
+        f = m.define_function("main", [Bo] * (k - 1))
+        n = f.call(decl, *f.inputs(), instantiation=tys.FunctionType([Bo] * (k - 1), [Bo] * k),
+                   type_args=[tys.SequenceArg([tys.TypeTypeArg(Bo)] * (k - 1))])
     sym.check("handle_enumerates_value_outputs", _outs(n) == list(range(k)))
     sym.check("unpacking_works", len(list(n[:])) == k)
     try:
